@@ -2,6 +2,7 @@
   C18: responses of the HTTP model do not depend on the values of configured passwords.
 -/
 import BurrowVerif.Proofs.Http
+import BurrowVerif.Proofs.HttpViper
 
 namespace Burrow.Http
 
@@ -59,7 +60,7 @@ theorem not_password_of_long {p : List String} (h : 4 ≤ p.length) : isPassword
   | _ :: _ :: _ :: _ :: _ => rfl
 
 theorem leavesUnder_paths (c : Cfg) (P : List String) :
-    c.leavesUnder P = (c.map (·.1)).filterMap (c.leafEntry P) := by
+    c.leavesUnder P = dedupKeys ((c.map (·.1)).filterMap (c.leafEntry P)) := by
   simp [Cfg.leavesUnder, List.filterMap_map, Function.comp_def]
 
 theorem filterMap_congr' {α β} {f g : α → Option β} : ∀ {l : List α}, (∀ x ∈ l, f x = g x) → l.filterMap f = l.filterMap g := by
@@ -84,6 +85,7 @@ theorem isPrefixOf_length {p q : List String} (h : p.isPrefixOf q = true) : p.le
 theorem leavesUnder_same (h : SameExceptPasswords c c') (P : List String) (hP : 3 ≤ P.length) :
     c.leavesUnder P = c'.leavesUnder P := by
   rw [leavesUnder_paths, leavesUnder_paths, h.1]
+  congr 1
   apply filterMap_congr'
   intro q _
   unfold Cfg.leafEntry
@@ -122,16 +124,17 @@ theorem keyPath_length (name : String) : 1 ≤ (keyPath name).length := by
   | cons _ _ => simp
 
 /-- reading one field under a module root -/
-theorem readField_same (h : SameExceptPasswords c c') (root : List String) (hroot : 2 ≤ root.length)
+theorem readField_same (hpl : c.Plain) (h : SameExceptPasswords c c') (root : List String) (hroot : 2 ≤ root.length)
     (suffix : String) (hs : suffix ≠ "password") (g : Getter) :
     readField c root suffix g = readField c' root suffix g := by
+  have hpl' : c'.Plain := hpl.of_paths h.1
   have hp := not_password_of_suffix root suffix hs
   cases g
-  · simp [readField, getString_same h hp]
-  · simp [readField, getInt_same h hp]
-  · simp [readField, getBool_same h hp]
-  · simp [readField, getSlice_same h hp]
-  · simp only [readField]
+  · simp [readField, vString_plain hpl, vString_plain hpl', getString_same h hp]
+  · simp [readField, vInt_plain hpl, vInt_plain hpl', getInt_same h hp]
+  · simp [readField, vBool_plain hpl, vBool_plain hpl', getBool_same h hp]
+  · simp [readField, vSlice_plain hpl, vSlice_plain hpl', getSlice_same h hp]
+  · simp only [readField, vLeaves_plain hpl, vLeaves_plain hpl']
     rw [leavesUnder_same h]
     simp; omega
 
@@ -142,41 +145,44 @@ theorem NoPasswordSuffix.of_bool {fs} (h : noPasswordSuffix fs = true) : NoPassw
   have := (List.all_eq_true.mp h) f hf
   simpa using this
 
-theorem readFields_same (h : SameExceptPasswords c c') (root : List String) (hroot : 2 ≤ root.length)
+theorem readFields_same (hpl : c.Plain) (h : SameExceptPasswords c c') (root : List String) (hroot : 2 ≤ root.length)
     (fs : List (String × String × Getter)) (hfs : NoPasswordSuffix fs) :
     readFields c root fs = readFields c' root fs := by
   unfold readFields
   apply List.map_congr_left
   intro f hf
   obtain ⟨j, suffix, g⟩ := f
-  simp [readField_same h root hroot suffix (hfs _ hf) g]
+  simp [readField_same hpl h root hroot suffix (hfs _ hf) g]
 
-theorem clientProfile_same (h : SameExceptPasswords c c') (name : String) :
+theorem clientProfile_same (hpl : c.Plain) (h : SameExceptPasswords c c') (name : String) :
     clientProfile c name = clientProfile c' name := by
+  have hpl' : c'.Plain := hpl.of_paths h.1
   have hk := keyPath_length name
   have g1 : ∀ (root : List String) (s : String), s ≠ "password" → c.getString (root ++ [s]) = c'.getString (root ++ [s]) :=
     fun root s hs => getString_same h (not_password_of_suffix root s hs)
   have g2 : ∀ (root : List String) (s : String), s ≠ "password" → c.getBool (root ++ [s]) = c'.getBool (root ++ [s]) :=
     fun root s hs => getBool_same h (not_password_of_suffix root s hs)
-  simp only [clientProfile]
+  simp only [clientProfile, vString_plain hpl, vString_plain hpl', vBool_plain hpl, vBool_plain hpl', vSet_plain hpl, vSet_plain hpl']
   rw [g1 _ "tls" (by decide), g1 _ "sasl" (by decide), g1 _ "client-id" (by decide), g1 _ "kafka-version" (by decide)]
   simp only [isSet_same h]
   rw [g1 _ "certfile" (by decide), g1 _ "keyfile" (by decide), g1 _ "cafile" (by decide), g2 _ "noverify" (by decide),
     g2 _ "handshake-first" (by decide), g1 _ "username" (by decide)]
 
-theorem moduleDetailAt_same (h : SameExceptPasswords c c') (root : List String) (hroot : 2 ≤ root.length)
+theorem moduleDetailAt_same (hpl : c.Plain) (h : SameExceptPasswords c c') (root : List String) (hroot : 2 ≤ root.length)
     (fs : List (String × String × Getter)) (hfs : NoPasswordSuffix fs) (b : Bool) :
     moduleDetailAt c root fs b = moduleDetailAt c' root fs b := by
+  have hpl' : c'.Plain := hpl.of_paths h.1
   unfold moduleDetailAt
-  rw [isSet_same h, readFields_same h root hroot fs hfs,
+  simp only [vSet_plain hpl, vSet_plain hpl', vString_plain hpl, vString_plain hpl']
+  rw [isSet_same h, readFields_same hpl h root hroot fs hfs,
     getString_same h (not_password_of_suffix root "client-profile" (by decide))]
-  cases b <;> simp [clientProfile_same h]
+  cases b <;> simp [clientProfile_same hpl h]
 
-theorem moduleDetail_same (h : SameExceptPasswords c c') (kind name : String)
+theorem moduleDetail_same (hpl : c.Plain) (h : SameExceptPasswords c c') (kind name : String)
     (fs : List (String × String × Getter)) (hfs : NoPasswordSuffix fs) (b : Bool) :
     moduleDetail c kind name fs b = moduleDetail c' kind name fs b := by
   unfold moduleDetail
-  exact moduleDetailAt_same h _ (by have := keyPath_length name; simp; omega) fs hfs b
+  exact moduleDetailAt_same hpl h _ (by have := keyPath_length name; simp; omega) fs hfs b
 
 theorem storageFields_np : NoPasswordSuffix storageFields := .of_bool (by decide)
 theorem evaluatorFields_np : NoPasswordSuffix evaluatorFields := .of_bool (by decide)
@@ -187,24 +193,32 @@ theorem notifierHTTP_np : NoPasswordSuffix notifierHTTP := .of_bool (by decide)
 theorem notifierSlack_np : NoPasswordSuffix notifierSlack := .of_bool (by decide)
 theorem notifierEmail_np : NoPasswordSuffix notifierEmail := .of_bool (by decide)
 
-theorem notifierDetail_same (h : SameExceptPasswords c c') (name : String) :
+theorem notifierDetailAt_same (hpl : c.Plain) (h : SameExceptPasswords c c') (root : List String) (hroot : 2 ≤ root.length) :
+    notifierDetailAt c root = notifierDetailAt c' root := by
+  have hpl' : c'.Plain := hpl.of_paths h.1
+  unfold notifierDetailAt
+  simp only [vSet_plain hpl, vSet_plain hpl', vString_plain hpl, vString_plain hpl',
+    isSet_same h, getString_same h (not_password_of_suffix _ "class-name" (by decide)),
+    moduleDetailAt_same hpl h root hroot _ notifierHTTP_np, moduleDetailAt_same hpl h root hroot _ notifierEmail_np,
+    moduleDetailAt_same hpl h root hroot _ notifierSlack_np, moduleDetailAt_same hpl h root hroot _ notifierCommon_np]
+
+theorem notifierDetail_same (hpl : c.Plain) (h : SameExceptPasswords c c') (name : String) :
     notifierDetailResp c name = notifierDetailResp c' name := by
   unfold notifierDetailResp
-  simp only [isSet_same h, getString_same h (not_password_of_suffix _ "class-name" (by decide)),
-    moduleDetail_same h "notifier" name _ notifierHTTP_np, moduleDetail_same h "notifier" name _ notifierEmail_np,
-    moduleDetail_same h "notifier" name _ notifierSlack_np, moduleDetail_same h "notifier" name _ notifierCommon_np]
+  exact notifierDetailAt_same hpl h _ (by have := keyPath_length name; simp; omega)
 
 /-- **Non-interference**: two backends that differ only in the configuration, and there only in
     password values, answer every request identically (and leave the same world behind). -/
-theorem handleH_same {W : Type} (be : Backend W) (cfg' : W → Cfg) (w : W)
+theorem handleH_same {W : Type} (be : Backend W) (cfg' : W → Cfg) (w : W) (hpl : (be.cfg w).Plain)
     (h : SameExceptPasswords (be.cfg w) (cfg' w)) (ps : Params) (hh : H) :
     handleH { be with cfg := cfg' } w ps hh = handleH be w ps hh := by
   have h' := h
-  cases hh <;> simp only [handleH, moduleList] <;>
+  have hpl' : (cfg' w).Plain := hpl.of_paths h.1
+  cases hh <;> simp only [handleH, moduleList, vChildren_plain hpl, vChildren_plain hpl'] <;>
     first
     | rfl
-    | (simp only [← moduleDetail_same h' _ _ _ storageFields_np, ← moduleDetail_same h' _ _ _ evaluatorFields_np,
-        ← moduleDetail_same h' _ _ _ clusterFields_np, ← moduleDetail_same h' _ _ _ consumerFields_np,
-        ← notifierDetail_same h', ← children_same h'])
+    | (simp only [← moduleDetail_same hpl h' _ _ _ storageFields_np, ← moduleDetail_same hpl h' _ _ _ evaluatorFields_np,
+        ← moduleDetail_same hpl h' _ _ _ clusterFields_np, ← moduleDetail_same hpl h' _ _ _ consumerFields_np,
+        ← notifierDetail_same hpl h', ← children_same h'])
 
 end Burrow.Http
